@@ -95,6 +95,49 @@ def inline_call(caller_j, bi, callee_j):
         caller_j.setdefault("debug", []).append(nd)
 
 
+def fold_not_switches(cj):
+    """`d = Not(x); switch d` (what `if helper()` becomes when the helper returns `!(a <= b)`) is rewritten to `switch x` with the
+    targets swapped, through plain moves of single-definition temporaries.  Rules that read a switch see the comparison itself."""
+    defs = {}
+    for blk in cj["blocks"]:
+        for st in blk["stmts"]:
+            if st.get("k") == "assign" and not st["place"]["p"]:
+                defs.setdefault(st["place"]["l"], []).append(st["rv"])
+        t = blk["term"]
+        if t["k"] == "call" and t.get("dest") and not t["dest"]["p"]:
+            defs.setdefault(t["dest"]["l"], []).append(None)
+    nargs = cj.get("arg_count", 0)
+
+    def resolve(op, flips, depth=0):
+        if depth > 8 or op.get("k") not in ("copy", "move") or op["place"]["p"]:
+            return op, flips
+        l = op["place"]["l"]
+        ds = defs.get(l, [])
+        if len(ds) != 1 or ds[0] is None or 1 <= l <= nargs:
+            return op, flips
+        rv = ds[0]
+        if rv["k"] == "use":
+            return resolve(rv["op"], flips, depth + 1)
+        if rv["k"] == "unop" and rv.get("op") == "Not":
+            return resolve(rv["a"], flips + 1, depth + 1)
+        return op, flips
+    for blk in cj["blocks"]:
+        t = blk["term"]
+        if t["k"] != "switch" or blk["cleanup"] or len(t["targets"]) != 1 or str(t["targets"][0][0]) != "0":
+            continue
+        op, flips = resolve(t["discr"], 0)
+        if flips == 0:
+            continue
+        if op.get("k") not in ("copy", "move"):
+            continue
+        t["discr"] = {"k": "copy", "place": copy.deepcopy(op["place"])}
+        if flips % 2 == 1:
+            f_t, o_t = t["targets"][0][1], t["otherwise"]
+            t["targets"] = [[t["targets"][0][0], o_t]]
+            t["otherwise"] = f_t
+        t["not_folded"] = flips
+
+
 VARIANT_INDEX = {"Ok": "0", "Err": "1", "Continue": "0", "Break": "1", "None": "0", "Some": "1"}
 TRY_BRANCH = {"Ok": "Continue", "Err": "Break", "Some": "Continue", "None": "Break"}
 
@@ -307,6 +350,7 @@ def _inline_into(nf, owned, k, caller_k, done):
         if site is None:
             return
         inline_call(cj, site, callee.j)
+        fold_not_switches(cj)
         nf.mir[caller_k] = Body(caller_k, cj, nf)
         # closures created inside the helper now belong to the caller's typeck root
         for ck, cb in list(nf.mir.items()):
